@@ -185,7 +185,11 @@ def build(streams):
     for i, (pre, stream) in enumerate(streams):
         ops += hostile_ops(100 + i, pre, stream)
         ops += witness_trip(i)
-    ops.append({"op": "quiesce"})
+        if i % 5 == 4:
+            # whatever the offenders left half-done (a QoS 2 publish never released, deliveries never acknowledged) times out
+            ops.append({"op": "sweep", "n": 1, "ms": 3300})
+            ops += witness_trip(1000 + i)
+    ops += [{"op": "sweep", "n": 1, "ms": 6600}, {"op": "quiesce"}]
     return {"nodes": [1], "lenient": True, "ops": ops}
 
 
